@@ -171,3 +171,67 @@ Example C10_example_span_dict_shared :
                                  OEdit 0 (ENodeDict 0 0 0 (TStr (lit "s:color")) (TStr (lit "s:pink")))] 0 in
   content_of after' 0 <> content_of after' 2.
 Proof. exact span_dict_is_shared_in_the_model. Qed.
+
+From PV Require Import model.SccLen model.SccStash model.SccDecoder model.SccReuse proofs.SccReuseFacts proofs.SccReuseExamples.
+(* ==== wave 7: the decoder state of an SCCReader OBJECT (model/SccReuse.v over the decoder model model/SccDecoder.v) =========
+   Here the model DOES contain the document (parsed lines), the decoder and its twelve state fields; a read() starts from
+   whatever the reset re-creates (`fs` = the fields it re-creates) and leaves its state in the object - also when it raises. *)
+
+(* a reset that covers the decoder state: the object is as new, whatever it went through *)
+Theorem C10_scc_reset_covers_fresh : forall fs s offset, covers fs = true -> reset_fields fs s offset = rstate0 offset.
+Proof. exact reset_covers_fresh. Qed.
+Print Assumptions C10_scc_reset_covers_fresh.
+
+(* one read(): for EVERY state the object may be in, every document and offset, the result is that of a new object *)
+Theorem C10_scc_read_independent_of_reader_state : forall fs s offset ls,
+  covers fs = true -> snd (reader_read fs s offset ls) = SccDecoder.read offset ls.
+Proof. exact reader_read_is_fresh_read. Qed.
+Print Assumptions C10_scc_read_independent_of_reader_state.
+
+(* every history of documents read by one object (refused documents included), from any initial state *)
+Theorem C10_scc_reader_history_isolated : forall fs docs s,
+  covers fs = true -> reader_history fs s docs = map (fun d => SccDecoder.read (fst d) (snd d)) docs.
+Proof. exact reader_history_isolated. Qed.
+Print Assumptions C10_scc_reader_history_isolated.
+
+(* the same document again, after anything else was read on the object: the same result *)
+Theorem C10_scc_same_document_same_result : forall fs before between after d s,
+  covers fs = true ->
+  let rs := reader_history fs s (before ++ d :: between ++ d :: after) in
+  nth_error rs (length before) = nth_error rs (length before + S (length between)).
+Proof. exact reader_history_same_document_same_result. Qed.
+Print Assumptions C10_scc_same_document_same_result.
+
+(* the reset of the repaired code re-creates all twelve fields *)
+Theorem C10_scc_code_reset_covers : covers code_reset = true.
+Proof. exact code_reset_covers. Qed.
+Print Assumptions C10_scc_code_reset_covers.
+
+(* not every field of the reset is needed: a reset that leaves the time translator (_last_time, _frames) as the last read
+   left it still gives the new-object result, for every state, document and offset (start_at() overwrites both at the first
+   line; without a line nothing reads them) *)
+Theorem C10_scc_time_translator_reset_redundant : forall fs s offset ls,
+  covers (FTc :: FFrames :: fs) = true -> snd (reader_read fs s offset ls) = SccDecoder.read offset ls.
+Proof. exact time_translator_reset_redundant. Qed.
+Print Assumptions C10_scc_time_translator_reset_redundant.
+
+(* the hypothesis is needed: without any reset (the code before the repair) and with caption_stash / position tracker /
+   last_command / non-displayed memory / active buffer / pop-on queue left out, a two-document history exists whose second
+   result differs from the read on a new object; the covering reset gives the new-object result on the same histories *)
+Theorem C10_scc_partial_resets_refuted :
+  forallb (fun w => second_differs (fst (fst w)) (snd (fst w)) (snd w)) witnesses = true /\
+  forallb (fun w => negb (second_differs code_reset (snd (fst w)) (snd w))) witnesses = true /\
+  forallb (fun w => negb (covers (fst (fst w)))) witnesses = true.
+Proof. exact partial_resets_refuted. Qed.
+Print Assumptions C10_scc_partial_resets_refuted.
+
+Example C10_example_refused_then_valid :
+  reader_history code_reset new_reader [doc_a_cut; doc_b]
+  = [RErr (ECrash 3); SccDecoder.read (fst doc_b) (snd doc_b)] /\
+  (exists caps, SccDecoder.read (fst doc_b) (snd doc_b) = ROk caps /\ length caps = 1%nat).
+Proof. exact refused_then_valid. Qed.
+
+Example C10_example_reset_without_time_translator :
+  let fs := [FStash; FTk; FLast; FDstart; FPop; FPaint; FRoll; FActive; FQueue; FTime] in
+  covers fs = false /\ covers (FTc :: FFrames :: fs) = true.
+Proof. split; reflexivity. Qed.
